@@ -7,8 +7,11 @@ stack frame so that the assembler saves and restores it, and the caller observes
 the same base-pointer value after the call; a function marked NOFRAME is refused
 with an error.
 
-Generic part: theorems for ALL attribute sets, local sizes ≥ 0, output-register
-lists, bodies and machine states.  Facts about avo's register table, the pass
+Generic part: theorems for ALL attribute sets, local sizes 0 ≤ ls < 2^31,
+output-register lists, bodies and machine states.  The upper bound is NOT
+granted by the property's quantifier: the assembler truncates the declared frame
+to int32 (`autoffset`, Model/BP), avo does not refuse such frames, and the
+property FAILS there (`bp_wrapped_frame_not_saved`, finding F18).  Facts about avo's register table, the pass
 order and the measured behaviour of the installed assembler are in
 Props/C15Tables.lean.
 -/
@@ -19,35 +22,58 @@ open Avo.Reg
 /-! ### The pass -/
 
 /-- **bp_saved.**  If the pass succeeds on a function that clobbers BP (local
-size ≥ 0 as the property quantifies: "frame sizes 0 and >0"), the function is
-not NOFRAME, the resulting frame is positive, and the assembler's rule — the
-installed one and the older one quoted in pass/reg.go — saves BP, whatever
+size ≥ 0 as the property quantifies: "frame sizes 0 and >0"; and below 2^31 —
+the explicit hypothesis the quantifier does not grant, see
+`bp_wrapped_frame_not_saved`), the function is not NOFRAME, the resulting frame
+is positive, is the frame the assembler allocates, and the assembler's rule —
+the installed one and the older one quoted in pass/reg.go — saves BP, whatever
 NOSPLIT and whether or not the function calls. -/
-theorem bp_saved (nf : Bool) (ls ls' : Int) (h0 : 0 ≤ ls)
+theorem bp_saved (nf : Bool) (ls ls' : Int) (h0 : 0 ≤ ls) (hlt : ls < frameLimit)
     (h : ensureBP nf ls true = .ok ls') :
-    nf = false ∧ ls' > 0 ∧
+    nf = false ∧ ls' > 0 ∧ autoffset ls' = ls' ∧
     ∀ nosplit hasCall, asmSavesBP ls' nf nosplit hasCall = true ∧
                        asmSavesBPQuoted ls' nf nosplit hasCall = true := by
   unfold ensureBP at h
   cases nf with
   | true => simp at h
   | false =>
-    have hpos : ls' > 0 := by
+    have hpos : ls' > 0 ∧ ls' < frameLimit := by
       simp only [Bool.not_true, Bool.false_eq_true, if_false] at h
       by_cases hz : ls = 0
       · subst hz
         simp [pointerSize] at h
-        omega
+        unfold frameLimit; omega
       · have : (ls == 0) = false := by simpa using hz
         simp [this] at h
         omega
-    refine ⟨rfl, hpos, ?_⟩
+    have ha : autoffset ls' = ls' := autoffset_of_lt ls' (by omega) hpos.2
+    refine ⟨rfl, hpos.1, ha, ?_⟩
     intro ns hc
-    have ha : autoffset ls' = ls' := by unfold autoffset; split <;> omega
     have hne : (ls' == 0) = false := by
       have : ls' ≠ 0 := by omega
       simpa using this
     simp [asmSavesBP, asmSavesBPQuoted, ha, hne]
+
+/-- **The property fails at and above 2^31 (finding F18).**  For every declared
+local size in [2^31, 2^32) the pass accepts a BP-clobbering function unchanged,
+yet the assembler (int32 truncation of the frame) allocates no frame and does
+not save BP in a leaf — under either rule.  Witness: `AllocLocal(1<<31)`. -/
+theorem bp_wrapped_frame_not_saved (ls : Int) (h1 : frameLimit ≤ ls) (h2 : ls < 2 * frameLimit) (ns : Bool) :
+    ensureBP false ls true = .ok ls ∧ autoffset ls = 0 ∧
+    asmSavesBP ls false ns false = false ∧ asmSavesBPQuoted ls false ns false = false := by
+  unfold frameLimit at h1 h2
+  have hz : (ls == 0) = false := by
+    have : ls ≠ 0 := by omega
+    simpa using this
+  have ha : autoffset ls = 0 := by
+    unfold autoffset wrap32; split <;> omega
+  refine ⟨by simp [ensureBP, hz], ha, ?_, ?_⟩ <;> simp [asmSavesBP, asmSavesBPQuoted, ha]
+
+example : ensureBP false 2147483648 true = .ok 2147483648 ∧ asmSavesBP 2147483648 false false false = false :=
+  ⟨(bp_wrapped_frame_not_saved 2147483648 (by decide) (by decide) false).1,
+   (bp_wrapped_frame_not_saved 2147483648 (by decide) (by decide) false).2.2.1⟩
+/-- 2^32 + 8 is allocated as an 8-byte frame: BP is saved, the locals are not inside it (C16). -/
+example : autoffset 4294967304 = 8 := by decide
 
 example : ensureBP false 0 true = .ok 8 := by simp [ensureBP, pointerSize]
 example : ensureBP false 24 true = .ok 24 := by simp [ensureBP]
@@ -102,14 +128,29 @@ theorem bp_negative_frame_not_saved :
 
 /-! ### The assembler's rule -/
 
-/-- With a positive frame and no NOFRAME both rules save BP. -/
-theorem asm_saves_of_frame (frame : Int) (ns hc : Bool) (h : frame > 0) :
+/-- With a positive frame below 2^31 and no NOFRAME both rules save BP. -/
+theorem asm_saves_of_frame (frame : Int) (ns hc : Bool) (h : frame > 0) (hlt : frame < frameLimit) :
     asmSavesBP frame false ns hc = true ∧ asmSavesBPQuoted frame false ns hc = true := by
-  have ha : autoffset frame = frame := by unfold autoffset; split <;> omega
+  have ha : autoffset frame = frame := autoffset_of_lt frame (by omega) hlt
   have hne : (frame == 0) = false := by
     have : frame ≠ 0 := by omega
     simpa using this
   simp [asmSavesBP, asmSavesBPQuoted, ha, hne]
+
+example : asmSavesBP 8 false true false = true ∧ asmSavesBPQuoted 8 false true false = true :=
+  asm_saves_of_frame 8 true false (by decide) (by decide)
+
+/-- In general: both rules save BP of a non-NOFRAME function iff the frame the
+assembler really allocates is positive (for a leaf; the installed rule also
+saves when the function calls). -/
+theorem asm_saves_iff (frame : Int) (ns : Bool) :
+    (asmSavesBP frame false ns false = true ↔ autoffset frame > 0) ∧
+    (asmSavesBPQuoted frame false ns false = true ↔ autoffset frame > 0) := by
+  have := (autoffset_range frame).1
+  by_cases hz : autoffset frame = 0
+  · simp [asmSavesBP, asmSavesBPQuoted, hz]
+  · have hne : (autoffset frame == 0) = false := by simpa using hz
+    simp [asmSavesBP, asmSavesBPQuoted, hne]; omega
 
 /-- NOFRAME is never saved (so refusing is the only sound answer), and neither is
 a frameless leaf: the 8-byte local is what makes the difference. -/
@@ -160,31 +201,32 @@ theorem unsaved_bp_lost (frame : Int) (s : M) (v : Int) (hv : v ≠ s.bp) :
 /-! ### The function-level statement -/
 
 /-- **Statement.**  For a function as the pass sees it (after binding), with
-local size ≥ 0: if the pass accepts it, nothing but the local size changed, the
-local size changed only if BP is clobbered, and — when BP is clobbered — the
-function is not NOFRAME, has a positive frame and both assembler rules save BP;
+local size 0 ≤ ls < 2^31: if the pass accepts it, nothing but the local size
+changed, the local size changed only if BP is clobbered, and — when BP is
+clobbered — the function is not NOFRAME, the frame the assembler allocates
+(`autoffset`) is the declared one and positive, and both assembler rules save BP;
 then for every stack-respecting body (which leaves BP alone when no output
 register is a BP register: C04) the caller's BP is the same after the call.  If
 the pass refuses, the function clobbers BP and is NOFRAME. -/
 def C15_statement (tbl : List RegRow) : Prop :=
-  ∀ f : Fn, 0 ≤ f.localSize →
+  ∀ f : Fn, 0 ≤ f.localSize → f.localSize < frameLimit →
     match f.ensure tbl with
     | .ok f' =>
       f'.attrs = f.attrs ∧ f'.outs = f.outs ∧ f'.hasCall = f.hasCall ∧
       (clobbersBP tbl f.outs = false → f'.localSize = f.localSize) ∧
       (clobbersBP tbl f.outs = true →
-        attrNoFrame f'.attrs = false ∧ f'.localSize > 0 ∧
+        attrNoFrame f'.attrs = false ∧ f'.localSize > 0 ∧ autoffset f'.localSize = f'.localSize ∧
         asmSavesBP f'.localSize (attrNoFrame f'.attrs) (attrNoSplit f'.attrs) f'.hasCall = true ∧
         asmSavesBPQuoted f'.localSize (attrNoFrame f'.attrs) (attrNoSplit f'.attrs) f'.hasCall = true) ∧
-      (∀ body : M → M, BodyOK f'.localSize body →
+      (∀ body : M → M, BodyOK (autoffset f'.localSize) body →
         (clobbersBP tbl f.outs = false → ∀ t, (body t).bp = t.bp) →
         ∀ s : M, (runFn (asmSavesBP f'.localSize (attrNoFrame f'.attrs) (attrNoSplit f'.attrs) f'.hasCall)
-                    f'.localSize body s).bp = s.bp)
+                    (autoffset f'.localSize) body s).bp = s.bp)
     | .error _ => clobbersBP tbl f.outs = true ∧ attrNoFrame f.attrs = true
 
 /-- **C15** for every register table. -/
 theorem C15 (tbl : List RegRow) : C15_statement tbl := by
-  intro f h0
+  intro f h0 hlt
   unfold Fn.ensure
   cases hc : clobbersBP tbl f.outs with
   | false =>
@@ -199,13 +241,19 @@ theorem C15 (tbl : List RegRow) : C15_statement tbl := by
     | error e =>
       exact ⟨rfl, (bp_error_only_noframe _ _ _ _ he).2⟩
     | ok ls =>
-      obtain ⟨hnf, hpos, hsave⟩ := bp_saved _ _ _ h0 he
+      obtain ⟨hnf, hpos, hauto, hsave⟩ := bp_saved _ _ _ h0 hlt he
       have hs := hsave (attrNoSplit f.attrs) f.hasCall
-      refine ⟨rfl, rfl, rfl, fun h => by simp at h, fun _ => ⟨hnf, hpos, hs.1, hs.2⟩, ?_⟩
+      refine ⟨rfl, rfl, rfl, fun h => by simp at h, fun _ => ⟨hnf, hpos, hauto, hs.1, hs.2⟩, ?_⟩
       intro body hb _ s
       simp only
       rw [hs.1]
       exact (saved_bp_restored _ body hb s).1
+
+/-- The hypotheses of `C15` are satisfiable, and its conclusion is not vacuous:
+a concrete body that sets BP and writes into its 8-byte frame. -/
+example : BodyOK 8 (fun t => { (t.store t.sp 7) with bp := 4660 }) := by
+  intro t; refine ⟨rfl, ?_⟩
+  intro a ha; simp [M.store]; omega
 
 /-- Non-vacuity: a frameless NOSPLIT function whose only instruction writes RBP
 gets an 8-byte frame; with NOFRAME it is refused.  (Table: the four BP rows.) -/
@@ -244,54 +292,102 @@ inductive Outcome where
 
 /-- Executable form of the property on the implementation's own outcome:
 `clob` = some bound output register is hardware BP.  Only what the property
-demands is judged: how large the frame of a clobbering function is beyond "> 0",
-and anything about functions that leave BP alone, is the exact comparison's
-business (the unused `_ls` is the local size before the pass). -/
-def acceptBP (attrs : Nat) (_ls : Int) (hasCall clob : Bool) (o : Outcome) : Bool :=
-  if !clob then true
-  else match o with
-    | .err => attrNoFrame attrs
-    | .ok ls' => !attrNoFrame attrs && decide (ls' > 0) &&
+demands is judged: an error is right only for a clobbering NOFRAME function; an
+accepted clobbering function must not be NOFRAME, and the frame `ls'` (the
+resulting LocalSize, or the number printed on the TEXT line) must make both
+assembler rules save BP — with the assembler's int32 reading of the frame.  How
+large the frame is beyond that, and the frame of functions that leave BP alone,
+is the exact comparison's business.  `ls` is the local size before the pass: a
+refusal is also right for a frame the assembler cannot allocate (within 16 bytes
+of 2^31 or above) — avo does not refuse those today (finding), a repair may. -/
+def acceptBP (attrs : Nat) (ls : Int) (hasCall clob : Bool) (o : Outcome) : Bool :=
+  match o with
+  | .err => (clob && attrNoFrame attrs) || decide (frameLimit ≤ ls + 16)
+  | .ok ls' => !clob || (!attrNoFrame attrs && decide (autoffset ls' > 0) &&
         asmSavesBP ls' (attrNoFrame attrs) (attrNoSplit attrs) hasCall &&
-        asmSavesBPQuoted ls' (attrNoFrame attrs) (attrNoSplit attrs) hasCall
+        asmSavesBPQuoted ls' (attrNoFrame attrs) (attrNoSplit attrs) hasCall)
 
-/-- Soundness: an accepted outcome of a clobbering function is either a refusal
-of a NOFRAME function or a function that both assembler rules save. -/
-theorem acceptBP_sound (attrs : Nat) (ls : Int) (hc : Bool) (o : Outcome)
-    (h : acceptBP attrs ls hc true o = true) :
-    match o with
-    | .err => attrNoFrame attrs = true
-    | .ok ls' => attrNoFrame attrs = false ∧ ls' > 0 ∧
-        asmSavesBP ls' (attrNoFrame attrs) (attrNoSplit attrs) hc = true ∧
-        asmSavesBPQuoted ls' (attrNoFrame attrs) (attrNoSplit attrs) hc = true := by
+/-- **The property on one outcome, declaratively**: a refusal only of a
+clobbering NOFRAME function (or of a frame no assembler run can allocate); an accepted clobbering function is not NOFRAME, the
+assembler allocates a positive frame, both rules save BP, and — the observable
+clause — for EVERY stack-respecting body the caller's BP and SP are the same
+after the call. -/
+def OutcomeOK (attrs : Nat) (ls : Int) (hasCall clob : Bool) : Outcome → Prop
+  | .err => (clob = true ∧ attrNoFrame attrs = true) ∨ frameLimit ≤ ls + 16
+  | .ok ls' => clob = true →
+      attrNoFrame attrs = false ∧ autoffset ls' > 0 ∧
+      asmSavesBP ls' (attrNoFrame attrs) (attrNoSplit attrs) hasCall = true ∧
+      asmSavesBPQuoted ls' (attrNoFrame attrs) (attrNoSplit attrs) hasCall = true ∧
+      ∀ body : M → M, BodyOK (autoffset ls') body → ∀ s : M,
+        (runFn (asmSavesBP ls' (attrNoFrame attrs) (attrNoSplit attrs) hasCall) (autoffset ls') body s).bp = s.bp ∧
+        (runFn (asmSavesBP ls' (attrNoFrame attrs) (attrNoSplit attrs) hasCall) (autoffset ls') body s).sp = s.sp
+
+/-- **Soundness**: whatever the acceptor accepts satisfies the property's
+statement on that outcome (no bound on the frame: the truncation is part of
+the judgement). -/
+theorem acceptBP_sound (attrs : Nat) (ls : Int) (hc clob : Bool) (o : Outcome)
+    (h : acceptBP attrs ls hc clob o = true) : OutcomeOK attrs ls hc clob o := by
   cases o with
-  | err => simpa [acceptBP] using h
+  | err => simpa [acceptBP, OutcomeOK] using h
   | ok ls' =>
-    simp only [acceptBP, Bool.not_true, Bool.false_eq_true, if_false, Bool.and_eq_true,
+    intro hclob
+    subst hclob
+    simp only [acceptBP, Bool.not_true, Bool.false_or, Bool.and_eq_true,
       Bool.not_eq_true', decide_eq_true_eq] at h
-    exact ⟨h.1.1.1, h.1.1.2, h.1.2, h.2⟩
+    refine ⟨h.1.1.1, h.1.1.2, h.1.2, h.2, ?_⟩
+    intro body hb s
+    rw [h.1.2]
+    exact saved_bp_restored _ body hb s
 
-/-- Completeness: the model's own outcome is accepted (local size ≥ 0). -/
-theorem acceptBP_complete (attrs : Nat) (ls : Int) (hc clob : Bool) (h0 : 0 ≤ ls) :
+/-- The acceptor decides the statement: the converse of soundness (so a rejected
+outcome really violates the property's statement). -/
+theorem acceptBP_iff (attrs : Nat) (ls : Int) (hc clob : Bool) (o : Outcome) :
+    acceptBP attrs ls hc clob o = true ↔ OutcomeOK attrs ls hc clob o := by
+  refine ⟨acceptBP_sound attrs ls hc clob o, ?_⟩
+  intro h
+  cases o with
+  | err => simpa [acceptBP, OutcomeOK] using h
+  | ok ls' =>
+    cases clob with
+    | false => simp [acceptBP]
+    | true =>
+      obtain ⟨h1, h2, h3, h4, _⟩ := h rfl
+      rw [h1] at h3 h4
+      simp [acceptBP, h1, h2, h3, h4]
+
+/-- Completeness: the model's own outcome is accepted (local size 0 ≤ ls < 2^31). -/
+theorem acceptBP_complete (attrs : Nat) (ls : Int) (hc clob : Bool) (h0 : 0 ≤ ls) (hlt : ls < frameLimit) :
     acceptBP attrs ls hc clob
       (match ensureBP (attrNoFrame attrs) ls clob with | .error _ => .err | .ok l => .ok l) = true := by
   cases clob with
-  | false => simp [acceptBP]
+  | false => simp [acceptBP, bp_untouched_when_not_clobbered]
   | true =>
     cases he : ensureBP (attrNoFrame attrs) ls true with
     | error e =>
       have := (bp_error_only_noframe _ _ _ _ he).2
       simp [acceptBP, this]
     | ok l =>
-      obtain ⟨hnf, hpos, hs⟩ := bp_saved _ _ _ h0 he
+      obtain ⟨hnf, hpos, hauto, hs⟩ := bp_saved _ _ _ h0 hlt he
       have := hs (attrNoSplit attrs) hc
-      simp only [acceptBP, Bool.not_true, Bool.false_eq_true, if_false]
+      simp only [acceptBP, Bool.not_true, Bool.false_or]
       simp only [hnf] at this
-      simp [hnf, hpos, this.1, this.2]
+      simp [hnf, hauto, hpos, this.1, this.2]
+
+/-- … and at the witness of finding F18 the model's own outcome is REJECTED: the
+pass hands a 2^31-byte frame to an assembler that allocates none. -/
+theorem acceptBP_rejects_wrapped :
+    ensureBP false 2147483648 true = .ok 2147483648 ∧
+    acceptBP 0 2147483648 false true (.ok 2147483648) = false := by
+  constructor
+  · exact (bp_wrapped_frame_not_saved 2147483648 (by decide) (by decide) false).1
+  · decide
 
 example : acceptBP 4 0 false true (.ok 8) = true := by decide
 example : acceptBP 4 0 false true (.ok 0) = false := by decide
 example : acceptBP 512 0 false true (.ok 8) = false := by decide
 example : acceptBP 516 0 true true .err = true := by decide
+example : acceptBP 4 0 true false .err = false := by decide      -- refusing a function that leaves BP alone
+example : acceptBP 0 0 false true (.ok 4294967304) = true := by decide   -- the assembler allocates 8 bytes
+example : acceptBP 0 0 true true (.ok 2147483648) = false := by decide   -- no frame is allocated, whatever the rule says about callers
 
 end Avo.BP
